@@ -17,6 +17,7 @@ import NeoModel.Proofs.QueueCounters
 import NeoModel.Proofs.QueueFair
 import NeoModel.Proofs.QueueNoExt
 import NeoModel.Proofs.QueueDrift
+import NeoModel.Proofs.ChainAdd
 import NeoModel.Model.StateSync
 import NeoModel.Proofs.StateSyncRestore
 import NeoModel.Proofs.StateSyncRebuild
@@ -201,35 +202,10 @@ example :
   · exact ⟨el 12 0, by decide, rfl, rfl⟩
   · exact ⟨el 13 1, by decide, rfl, rfl⟩
 
-/-- C20 (queue): the clean-up loop of `Run` (queue.go:105-111) is dead code for every capacity ≥ 2: in
-every reachable state it leaves the ring and `len` untouched, whatever range of heights it is run over. -/
-theorem queue_cleanup_dead (cap h0 : Nat) (hc : 2 ≤ cap) (as : List Act) (n i : Nat) :
-    let s := exec (init cap h0) as
-    cleanup s.cap n i s.ring s.len = (s.ring, s.len) := by
-  intro s
-  have hi := inv_exec _ as (inv_init cap h0 (by omega))
-  have hcap : s.cap = cap := by
-    have : ∀ (s : State) (as : List Act), (exec s as).cap = s.cap := by
-      intro s as; induction as generalizing s with
-      | nil => rfl
-      | cons a r ih =>
-        rw [exec, ih]
-        cases a with
-        | put e hr => exact (put_frame s e _).2.2.1
-        | adv => rfl
-        | disc => simp only [apply, discard]; split <;> rfl
-        | run =>
-          simp only [apply, runStep]; split <;> try rfl
-          unfold wake; split
-          · rfl
-          · split <;> rfl
-    exact this _ _
-  exact cleanup_dead s.cap n i s.ring s.len (by omega) hi.slot
-
 /-- C20 (queue, what the drift of `len`/`lastQ` can and cannot affect): the queue never reads `len` or
 `lastQ` for a decision. Two runs of the same interleaving started from states that differ only in these two
 fields agree, step for step, on the ring, on `Run`'s position, on the chain and on its whole event log. So
-the drift proved in `queue_len_drift_witness` is confined to what `LastQueued` reports (and, outside the
+the under-count proved in `queue_len_undercount_witness` is confined to what `LastQueued` reports (and, outside the
 model, to what `Server.requestBlocks` does with it); ordering, at-most-once, retention and progress are
 unaffected. -/
 theorem queue_counters_write_only (s t : State) (as : List Act) (h : SameButCounters s t) :
@@ -282,28 +258,65 @@ theorem queue_drops_window_top_on_race_witness :
       decide
     rw [hpc] at h; cases h
 
-/-- FINDING (len-drift). Two producers deliver block 1, the second one read the height before the first
-copy was applied; the stale copy stays in slot 1 (the clean-up loop never removes anything) and is counted
-again when block 5 replaces it. After everything is applied the ring is empty, `Run` sleeps, and
-`LastQueued` reports 3 free slots of 4. The interleaving is calm (no external writer at all). -/
-theorem queue_len_drift_witness :
+-- Regression for len-drift (fixed by 3d50aab). Under the OLD rule (Put counted `len++` also when it replaced a
+-- stale element, and the clean-up loop compared the slot's index with `i` instead of `i+1`, so it never removed
+-- anything) this schedule — two producers deliver block 1, the second read the height before the first copy was
+-- applied; the stale copy is replaced by block 5 — ended with an empty ring and `LastQueued = (5, 3)`. Now the
+-- replacement is not counted again: the ring is empty and all 4 slots are reported free.
+example :
     let as : List Act := [.run, .put (el 1 0) 0, .run, .run, .run, .run, .run, .run, .run,
       .put (el 1 1) 0, .run, .run, .run,
       .put (el 5 2) 1, .put (el 2 3) 1, .put (el 3 4) 1, .put (el 4 5) 1] ++ List.replicate 24 .run
     let s := exec (init 4 0) as
     Calm (init 4 0) as ∧ s.height = 5 ∧ s.pc = .wait ∧ (∀ p, p < 4 → s.ring p = none) ∧
-    lastQueued s = (5, 3) := by
+    lastQueued s = (5, 4) := by
   exact ⟨(calm_iff _ _).2 (by decide), by decide, by decide, by decide, by decide⟩
+
+/-- C20 (queue, `len` never over-counts — every schedule). For every capacity, start height and EVERY
+interleaving of puts (any elements, any stale heights, duplicates, re-inserts of passed indices), `Run` steps,
+external chain additions and Discard: `len` is at most the number of occupied slots, i.e. `LastQueued` never
+reports less free capacity than there is (what the finding len-drift was about; it could reach 0 and stop
+`Server.requestBlocks`). Equality is NOT an invariant of the code as written, see the next witness. -/
+theorem queue_len_never_overcounts (cap h0 : Nat) (hc : 0 < cap) (as : List Act) :
+    let s := exec (init cap h0) as
+    s.len ≤ (occupied s : Nat) ∧ (cap : Int) - (occupied s : Nat) ≤ (lastQueued s).2 := by
+  intro s
+  have hx : NoOver s := noOver_exec (init cap h0) as (inv_init cap h0 hc) (by simp [NoOver, init, occN_none])
+  have hcap : s.cap = cap := exec_cap _ _
+  unfold NoOver at hx
+  rw [← occupied_eq] at hx
+  refine ⟨hx, ?_⟩
+  simp only [lastQueued, hcap]; omega
+
+-- non-vacuity: a stale duplicate, an external addition and a put into the slot of the element being applied:
+-- 2 of 4 slots occupied, `len` = 1 (not more than occupied; not equal either)
+example :
+    let s := exec (init 4 0) [.run, .put (el 1 0) 0, .run, .run, .run, .run, .put (el 1 1) 0, .adv, .put (el 5 2) 2,
+      .put (el 4 3) 1, .run, .run, .run]
+    occupied s = 2 ∧ s.len = 1 := by decide
+
+/-- FINDING (len-undercount), what is left of the `len` bookkeeping after 3d50aab. `Run` has applied block 1 and
+is on its way to its second lock section (queue.go:130-135); a producer puts block 5 = 1 + cap, which is inside
+the window now and lives in the same slot: `Put` replaces the applied element without `len++` (the slot was not
+empty), then `Run` counts `len--` although the slot it wanted to clear is no longer its element's. The ring holds
+block 5 and `LastQueued` reports all 4 slots free; when 5 is applied later `len` is −1 for good. No external
+writer, no stale height, no duplicate is involved. (Before the fix the replacement was counted, which made this
+interleaving exact and others drift upwards; counting down only when the slot still holds the applied element
+would make `len` exact.) -/
+theorem queue_len_undercount_witness :
+    let as : List Act := [.run, .put (el 1 0) 0, .run, .run, .run, .run, .put (el 5 1) 1, .run, .run, .run, .run,
+      .run, .run]
+    let s := exec (init 4 0) as
+    NoExt as ∧ s.pc = .wait ∧ s.ring (posOf 4 5) = some (el 5 1) ∧ occupied s = 1 ∧ lastQueued s = (1, 4) := by
+  refine ⟨by simp [NoExt], by decide, by decide, by decide, by decide⟩
 
 /-- C20 (queue, the schedule classes of the three findings). (1) `stuck-ext` needs an external writer: in
 every interleaving WITHOUT an external addition and without Discard (every block goes through `Put`, from any
 number of producers with arbitrarily stale heights, duplicates, invalid elements), whenever every index in
 `(height, m]` has a valid element in its slot, `Run` alone brings the chain to `m` — it is never asleep
 without a pending signal while the next block is queued. (2) `additem-ahead-ext` needs an external addition
-between `Run`'s height read and its lock section: `queue_offers_only_next`. (3) `len-drift` needs a producer
-whose stale height lets an index pass the window check that the chain has already passed (or an external
-writer): `queue_len_drift_witness` is such a schedule, and by `queue_counters_write_only` the drift touches
-nothing but what `LastQueued` reports. The harness keys a failure as the known finding only inside its class;
+between `Run`'s height read and its lock section: `queue_offers_only_next`. (3) `len` (after 3d50aab): `queue_len_never_overcounts` for every schedule, `queue_len_undercount_witness` for
+what is left; by `queue_counters_write_only` it touches nothing but what `LastQueued` reports. The harness keys a failure as the known finding only inside its class;
 the same symptom outside it is reported as a new defect (`stuck`, `additem-ahead`, `len-drift-fresh`). -/
 theorem queue_no_external_writer_never_stuck (cap h0 : Nat) (hc : 0 < cap) (as : List Act) (hn : NoExt as)
     (m : Nat) :
@@ -330,45 +343,39 @@ example :
   · exact ⟨el 2 0, by decide, rfl, rfl⟩
   · exact ⟨el 3 1, by decide, rfl, rfl⟩
 
-/-- C20 (queue, the schedule class of `len-drift`). In every interleaving WITHOUT an external chain addition,
-without Discard, and in which no producer gets an index the chain has already passed beyond the check
-`element.GetIndex() <= h` (i.e. no duplicate delivery whose height read raced with the application of the same
-block) — any number of producers, out of order, duplicates of blocks not yet applied, blocks far ahead, invalid
-elements, stale heights otherwise — `len` is exact: whenever `Run` is not between `AddItem` and its second lock
-section, `LastQueued` reports capacity minus the number of occupied slots. So the drift of
-`queue_len_drift_witness` needs exactly that stale re-insert (or an external writer); the harness keys a drift
-outside this class as the new failure `len-drift-fresh`. -/
-theorem queue_len_exact_without_stale_reinsert (cap h0 : Nat) (hc : 2 ≤ cap) (as : List Act)
-    (hf : FreshPuts (init cap h0) as) :
-    let s := exec (init cap h0) as
-    (∀ b pos, s.pc ≠ .added b pos) → (lastQueued s).2 = (cap : Int) - (occupied s : Nat) := by
-  intro s hna
-  have hx : Exact s := exact_exec (init cap h0) as hc (inv_init cap h0 (by omega)) (exact_init cap h0) hf
-  have hl : s.len = (occN s.ring s.cap : Int) + extra s := hx.len
-  have hcap : s.cap = cap := exec_cap _ _
-  have he : extra s = 0 := by
-    unfold extra
-    split
-    · rename_i b pos h; exact absurd h (hna b pos)
-    · rfl
-  have hl' : s.len = (occN s.ring cap : Int) := by rw [hl, he, hcap]; simp
-  simp only [lastQueued, occupied_eq, hcap, hl']
-
--- non-vacuity: the schedule of `queue_len_drift_witness` without its stale duplicate of block 1 is in the class
--- and ends with an exact `len`; the witness schedule itself is outside the class
-example :
-    let e (i t : Nat) : Elem := { idx := i, tag := t, ok := true }
-    let good : List Act := [.run, .put (e 1 0) 0, .run, .run, .run, .run, .run, .run, .run,
-      .put (e 5 2) 1, .put (e 2 3) 1, .put (e 3 4) 1, .put (e 4 5) 1, .put (e 4 6) 0] ++ List.replicate 24 .run
-    let bad : List Act := [.run, .put (e 1 0) 0, .run, .run, .run, .run, .run, .run, .run,
-      .put (e 1 1) 0, .run, .run, .run,
-      .put (e 5 2) 1, .put (e 2 3) 1, .put (e 3 4) 1, .put (e 4 5) 1] ++ List.replicate 24 .run
-    FreshPuts (init 4 0) good ∧ lastQueued (exec (init 4 0) good) = (5, 4) ∧ (exec (init 4 0) good).height = 5 ∧
-    ¬ FreshPuts (init 4 0) bad := by
-  unfold FreshPuts
-  decide
-
 end NeoModel.Queue
+
+namespace NeoModel.ChainAdd
+
+/-! ## Part (a'): the chain's `AddItem` is an atomic check-and-apply — several producers on one Blockchain.
+Tied by the `concurrent producers` phase of the sync stream: a real core.Blockchain fed by a real bqueue.Queue and
+2-4 goroutines calling AddBlock with the same and the adjacent blocks at once, compared with the source. -/
+
+/-- C20 (concurrent producers, every interleaving). Any number of producers (the block queue's `Run`, consensus,
+RPC submitblock, a second queue) call `Blockchain.AddBlock` with any blocks — the same index several times,
+adjacent ones, stale and future ones — and their three steps (take `addLock`; compare the index with the
+height; store the block and release the lock) interleave in ANY way. The blocks applied are exactly
+`h0+1, h0+2, …, height`, in order, each once: a duplicate is refused whenever it arrives. This is what lets the
+queue model (and `queue_in_order_once`) treat the chain's `AddItem` / an external addition as one atomic step. -/
+theorem chain_add_atomic (h0 : Nat) (as : List Act) :
+    let s := run (St.init h0) as
+    h0 ≤ s.height ∧ s.applied = List.range' (h0 + 1) (s.height - h0) :=
+  (inv_run h0 as _ (inv_init h0)).log
+
+-- non-vacuity: three producers, block 1 offered three times, block 2 too early and again later
+example :
+    let s := run (St.init 0) [.lock 0 1, .lock 1 1, .check 0, .store 0, .lock 1 1, .lock 2 2, .check 1, .check 2,
+      .store 2, .lock 1 1, .check 1, .lock 0 2, .check 0, .store 0]
+    s.applied = [1, 2] ∧ s.height = 2 := by decide
+
+/-- Seeded change C20-m6 as a model: with the index check made BEFORE the lock is taken, two producers offering
+block 1 both pass the check against height 0, then both store it: block 1 is applied twice (the negation of
+`chain_add_atomic` for `racyStep`). The `concurrent producers` phase reports exactly this on the patched code
+(`block-applied-twice` / `producers-state-diverged`). -/
+theorem chain_add_check_outside_lock_witness :
+    (racyRun (St.init 0) [.lock 0 1, .lock 1 1, .store 0, .store 1]).applied = [1, 1] := by decide
+
+end NeoModel.ChainAdd
 
 namespace NeoModel.StateSync
 
